@@ -103,8 +103,50 @@ def c10_calls(rng, t):
     return out
 
 
+class SpecOracleError(Exception):
+    """a specification of Spec/PyStr.v disagrees with CPython's str: a defect of the machinery, not of the library"""
+
+
+def validate_pystr(rep, rng, tier):
+    """Spec/PyStr.v (extracted) against CPython's str on generated arguments"""
+    reqs, want = [], []
+    n = 1500 if tier == 'quick' else 40000
+    for _ in range(n):
+        t = rand_text(rng, unicode_=False) if rng.random() < 0.8 else rand_text(rng)
+        chars = rng.choice(['a', 'ab', ' ', 'b ', '', t[:1], t[-1:], ' \t\n\r\x0b\x0c', 'ba'])
+        sub = sub_of(rng, t)
+        m = rng.choice([-1, -1, 0, 1, 2, 3])
+        reqs += [[11, 0, chars, t, 0], [11, 1, chars, t, 0], [11, 2, chars, t, 0], [11, 3, sub, t, 0], [11, 4, sub, t, 0]]
+        want += [t.lstrip(chars) if chars else t, t.rstrip(chars) if chars else t, t.strip(chars) if chars else t,
+                 t.removeprefix(sub), t.removesuffix(sub)]
+        if sub:
+            reqs += [[11, 5, sub, t, 0], [11, 6, sub, t, 0], [11, 7, sub, t, m], [11, 8, sub, t, m]]
+            rp = t.rpartition(sub)
+            want += [list(t.partition(sub)), (list(rp) if sub in t else [t, '', '']), t.split(sub, m), t.rsplit(sub, m)]
+    answers = model.ask(reqs, chunk=6000)
+    bad = []
+    for r, w, a in zip(reqs, want, answers):
+        which = r[1]
+        if which <= 4:
+            got = to_str(a)
+        elif which <= 6:
+            got = [to_str(x) for x in a]
+        else:
+            got = [to_str(x) for x in a[0]]
+            offs = [(o[0], o[1]) for o in a[1]]
+            # the offsets must locate exactly those texts
+            if [r[3][o:o + l] for (o, l) in offs] != got:
+                bad.append((r, 'offsets %s do not locate texts %s' % (offs, got)))
+        if got != w:
+            bad.append((r, 'spec gives %r, str gives %r' % (got, w)))
+    rep.bump('pystr_spec_validated', len(reqs))
+    if bad:
+        raise SpecOracleError('Spec/PyStr.v disagrees with CPython str on %d of %d cases, first: %s' % (len(bad), len(reqs), bad[0]))
+
+
 def c10_run(rep, rng, tier, term):
     viol = []
+    validate_pystr(rep, rng, tier)
     n = 2500 if tier == 'quick' else 80000
     for k in range(n):
         t = rand_text(rng)
